@@ -568,6 +568,46 @@ Definition vector_keyword (n : nat) (presized : bool) (elem_ok : Q -> bool) (tok
 
 Definition tok_value (t : tok) : option Q := match parse_real (Some t) with QVal q => Some q | _ => None end.
 
+(* ------------------------------------------------------------------------------------------------ *)
+(* Module-level pending configuration: colvarmodule::extra_conf                                        *)
+(* ------------------------------------------------------------------------------------------------ *)
+
+(* A variable block with the deprecated lowerWall/upperWall keywords QUEUES a harmonicWalls block
+   (colvar::parse_legacy_wall_params -> append_new_config) while it is being initialised, also when the variable is
+   then rejected and deleted.  parse_config() clears the queue when it starts, appends to it during parse_colvars,
+   and parses + clears it at its end; every early return on a rejected configuration skips that end, so the queue
+   is module-level residue of a rejected configuration.  [clear = false] is the variant without the clear() at the
+   start (seeded change C10_3). *)
+Record cblock := mkCBlock { cb_block : block; cb_walls : option block }.
+Record mstate := mkMState { ms_lists : lists; ms_pending : list block }.
+
+(* what the variables that parse_colvars actually initialises queue: up to and including the first rejected one *)
+Fixpoint queued (bs : list cblock) (have : list string) : list block :=
+  match bs with
+  | [] => []
+  | b :: r =>
+      let q := match cb_walls b with Some w => [w] | None => [] end in
+      if k_fails (cb_block b) || existsb (String.eqb (k_name (cb_block b))) have then q
+      else q ++ queued r (have ++ [k_name (cb_block b)])
+  end.
+
+Definition parse_config_ext (clear : bool) (cvs : list cblock) (biases_by_type : list (list block)) (st : mstate) : mstate :=
+  let p0 := if clear then [] else ms_pending st in
+  let l0 := mkLists (l_colvars (ms_lists st)) (l_biases (ms_lists st)) false in
+  let l1 := parse_colvars (map cb_block cvs) l0 in
+  let p1 := p0 ++ queued cvs (l_colvars l0) in
+  if l_err l1 then mkMState l1 p1                                     (* early return: the queue is left behind *)
+  else
+    let l2 := parse_biases biases_by_type l1 in
+    if l_err l2 then mkMState l2 p1
+    else match p1 with
+         | [] => mkMState l2 []
+         | _ => mkMState (parse_biases [p1] l2) []                    (* the queued blocks are parsed, then cleared *)
+         end.
+
+(* what the next parse_config() call can see of a state: the object lists (the error flag is reset by the caller) *)
+Definition visible (st : mstate) : list string * list (string * string) := (l_colvars (ms_lists st), l_biases (ms_lists st)).
+
 (* How a block comes to "fail".  Most validation errors are raised through a bare cvm::error() whose return value is
    dropped (the init function carries on and may return COLVARS_OK): they only set the module's error state.
    colvar::init() ends with parse_analysis(), which returns (cvm::get_error() ? COLVARS_ERROR : COLVARS_OK), and
